@@ -1001,7 +1001,8 @@ void QXmppTransferManager::ibbDataIqReceived(const QXmppIbbDataIq &iq)
         return;
     }
 
-    if (iq.sequence() != job->d->ibbSequence) {
+    // the sequence number is a 16-bit counter that wraps around (XEP-0047)
+    if (iq.sequence() != quint16(job->d->ibbSequence)) {
         // the packet is out of sequence
         QXmppStanza::Error error(QXmppStanza::Error::Cancel, QXmppStanza::Error::UnexpectedRequest);
         response.setType(QXmppIq::Error);
